@@ -177,6 +177,22 @@ def cli_world(sb, rng, presets, kind):
                 tag += "+preset"
             nodes[p] = v
         leaf = names[0]
+    elif kind == "case":
+        # acyclic chain over files whose paths differ only in letter case (file and directory names)
+        pool = [proj + "/shared/Base.toml", proj + "/shared/base.toml", proj + "/shared/BASE.toml", proj + "/Shared/base.toml",
+                proj + "/SHARED/Base.toml", proj + "/leaf.toml", proj + "/Leaf.toml", other + "/LEAF.toml", other + "/leaf.toml"]
+        n = rng.randint(2, 6)
+        names = rng.sample(pool, n)
+        tag = "case-%d" % n
+        for i, p in enumerate(names):
+            v = docgen(rng)
+            if i + 1 < n:
+                v[1]["extends"] = ("s", relref(rng, p, names[i + 1]))
+            elif rng.random() < 0.25:
+                v[1]["extends"] = ("s", relref(rng, p, names[0]))
+                tag += "+cycle"
+            nodes[p] = v
+        leaf = names[0]
     elif kind == "graph":
         n = rng.randint(1, 5)
         names = ["%s/g%d.toml" % (rng.choice(dirs), i) for i in range(n)]
@@ -281,7 +297,7 @@ def run_cli(ctx, env, n, st):
     rng = ctx.rng
     cli = env["cli"]
     for idx in range(n):
-        kind = rng.choice(["chain", "chain", "chain", "graph", "graph", "symlink", "remote", "preset"])
+        kind = rng.choice(["chain", "chain", "chain", "graph", "graph", "symlink", "remote", "preset", "case", "case"])
         no_ext = rng.random() < 0.15
         with Sandbox("sgv-c16-") as sb:
             w, leaf, tag = cli_world(sb, rng, env["presets"], kind)
@@ -342,6 +358,113 @@ def run_cli(ctx, env, n, st):
                 st["nontrivial"].add(m)
             if idx < 2:
                 ctx.sample({k: desc[k] for k in ("level", "tag", "leaf", "no_extends", "files", "spec")} | {"rc": rc})
+
+
+def run_discovered(ctx, env, st, n):
+    """--no-extends with a DISCOVERED leaf (./.sloc-guard.toml, or the user-config fallback) through the
+    commands that load their configuration via commands::context::load_config: explain, check, stats.
+    Oracle: identical to the same leaf with its inheritance keys removed (and to --no-extends --config <leaf>);
+    the base is chosen so that the full chain gives a different answer."""
+    rng = ctx.rng
+    cli = env["cli"]
+    src = "".join("fn f%d() {}\n" % i for i in range(8))
+    for idx in range(n):
+        user_cfg = rng.random() < 0.35
+        with Sandbox("sgv-c16-disc-") as sb:
+            base = config_doc(rng, markers=False)
+            base[1].setdefault("content", ("t", {}))[1]["max_lines"] = ("i", rng.choice([1, 3, 5]))
+            base[1].setdefault("scanner", ("t", {}))[1]["exclude"] = ("a", [("s", "src/gen/**")])
+            leaf = config_doc(rng, markers=rng.random() < 0.3)
+            c = leaf[1].setdefault("content", ("t", {}))[1]
+            c.pop("max_lines", None)
+            c.pop("rules", None)
+            c["extensions"] = ("a", [("s", "rs")])
+            if "scanner" in leaf[1]:
+                leaf[1]["scanner"][1].pop("exclude", None)
+            leaf[1].pop("structure", None)
+            if misplaced(leaf):
+                continue
+            alone_doc = ("t", dict(leaf[1]))
+            os.makedirs(os.path.join(sb.base, "shared"))
+            base_path = os.path.join(os.path.realpath(sb.base), "shared", "base.toml")
+            sb.write(base_path, toml_text(base, rng), base="/")
+            for d in ("proj", "alone"):
+                root = os.path.join(sb.base, d)
+                sb.write("src/a.rs", src, base=root)
+                sb.write("src/gen/b.rs", src, base=root)
+            alone = os.path.join(sb.base, "alone")
+            if user_cfg:
+                os.makedirs(os.path.join(sb.proj, ".git"))
+                os.makedirs(os.path.join(alone, ".git"))
+                leaf[1]["extends"] = ("s", base_path)
+                sb.write(".config/sloc-guard/config.toml", toml_text(leaf, rng), base=sb.home)
+                leaf_cfg = os.path.join(sb.home, ".config/sloc-guard/config.toml")
+                home2 = os.path.join(sb.base, "home2")
+                sb.write(".config/sloc-guard/config.toml", toml_text(alone_doc, rng), base=home2)
+                env_alone = {"HOME": home2, "XDG_CONFIG_HOME": os.path.join(home2, ".config")}
+            else:
+                leaf[1]["extends"] = ("s", rng.choice(["../shared/base.toml", base_path]))
+                sb.write(".sloc-guard.toml", toml_text(leaf, rng))
+                leaf_cfg = ".sloc-guard.toml"
+                sb.write(".sloc-guard.toml", toml_text(alone_doc, rng), base=alone)
+                env_alone = {}
+            cmds = {"explain": ["explain", "src/a.rs", "--format", "json"],
+                    "check": ["check", "--no-sloc-cache", "--format", "json"],
+                    "stats": ["stats", "summary", "--no-sloc-cache", "--format", "json"]}
+            tag = "discovered:" + ("user-config" if user_cfg else "local")
+            st["hist"][tag] = st["hist"].get(tag, 0) + 1
+            differs = False
+            for name, args in cmds.items():
+                def go(cwd, extra, env2):
+                    rc, out, err = sb.run(cli, ["--color", "never", *extra, *args], cwd=cwd, env=dict(env2, RAYON_NUM_THREADS="1"))
+                    st["cli_spawns"] += 1
+                    return rc, canon_report(out), err
+                ref = go(alone, [], env_alone)
+                if name == "check":
+                    ref_check = ref
+                disc = go(sb.proj, ["--no-extends"], {})
+                full = go(sb.proj, [], {})
+                st["evals"] += 1
+                desc = {"level": "discovered", "command": name, "user_config": user_cfg, "leaf": toml_text(leaf), "base": toml_text(base),
+                        "leaf_alone": {"rc": ref[0], "out": ref[1][:600]}, "no_extends_discovered": {"rc": disc[0], "out": disc[1][:600], "stderr": disc[2][-300:]}}
+                if ref[0] not in (0, 1) or "panicked at" in disc[2]:
+                    st["fails"].append(dict(desc, what="reference run failed / panic"))
+                    continue
+                if (disc[0], disc[1]) != (ref[0], ref[1]):
+                    st["fails"].append(dict(desc, what="%s --no-extends with a discovered leaf differs from the leaf with its extends line removed" % name))
+                else:
+                    st["agree_cli"] += 1
+                if (full[0], full[1]) != (ref[0], ref[1]):
+                    differs = True
+            # --no-extends --config <leaf> (explicit path) for the check command
+            rc, out, err = sb.run(cli, ["--color", "never", "--no-extends", "check", "--no-sloc-cache", "--format", "json", "-c", leaf_cfg], env={"RAYON_NUM_THREADS": "1"})
+            st["cli_spawns"] += 1
+            st["evals"] += 1
+            if (rc, canon_report(out)) != (ref_check[0], ref_check[1]):
+                st["fails"].append({"level": "discovered", "command": "check --config", "leaf": toml_text(leaf), "base": toml_text(base),
+                                    "what": "check --no-extends --config <leaf> differs from the leaf with its extends line removed",
+                                    "impl": {"rc": rc, "stderr": err[-300:]}})
+            else:
+                st["agree_cli"] += 1
+            if differs:
+                st["nontrivial"].add("discovered:%d:%s" % (idx, tag))
+            if idx < 1:
+                ctx.sample({"level": "discovered", "user_config": user_cfg, "leaf": toml_text(leaf), "base": toml_text(base), "full_chain_differs_from_leaf_alone": differs})
+
+
+def canon_report(out):
+    """JSON output with run-dependent fields removed."""
+    try:
+        j = json.loads(out)
+    except ValueError:
+        return out.strip()
+    def strip(x):
+        if isinstance(x, dict):
+            return {k: strip(v) for k, v in sorted(x.items()) if k not in ("timestamp", "generated_at", "duration_ms", "elapsed_ms", "version")}
+        if isinstance(x, list):
+            return [strip(v) for v in x]
+        return x
+    return json.dumps(strip(j), sort_keys=True)
 
 
 def run_corpus(ctx, env, st):
@@ -426,6 +549,7 @@ def run(ctx):
     cases, mouts = run_values(ctx, env, 6000 if quick else 60000, st)
     run_resolve(ctx, env, 2500 if quick else 25000, st)
     run_cli(ctx, env, 220 if quick else 1500, st)
+    run_discovered(ctx, env, st, 14 if quick else 120)
     xcheck(ctx, cases, mouts, 60 if quick else 400)
     ctx.cov["evaluations"] = st["evals"]
     ctx.cov["distinct_nontrivial"] = len(st["nontrivial"])
@@ -438,7 +562,9 @@ def run(ctx):
                        "against the re-exported functions; (2) reference graphs (chains 1..13, graphs over <=5 files with self-loops and longer cycles, presets, offline "
                        "remote cache incl. hash, relative / dotted / absolute spellings, aliases, missing and malformed members, non-string extends, --no-extends) against "
                        "the real ExtendsResolver over an in-memory FileSystem; (3) the same shapes on a real temp file system (symlinked files and directories) through "
-                       "sgcli config show, compared with config show of the file flattened by the independent python fold. Every case: impl vs extracted Coq model and impl vs "
+                       "sgcli config show, compared with config show of the file flattened by the independent python fold; chain members whose paths differ only in letter case (file and "
+                       "directory names) at levels 2 and 3; (4) --no-extends with a DISCOVERED leaf (./.sloc-guard.toml or the user-config fallback) through explain / check / stats, compared with the same "
+                       "leaf with its inheritance keys removed. Every case: impl vs extracted Coq model and impl vs "
                        "python spec. non-trivial = distinct case where the merge really combines both sides or a marker is involved (values), or a chain of >= 2 members / a cycle / a depth error (graphs)")
     ctx.cov["trusted_base"] = TRUSTED_COMMON + [
         "harness load_top replicates the value-level lines of FileConfigLoader::load_from_path (the CLI level runs the real loader)",
